@@ -1,17 +1,17 @@
 #!/bin/bash
-# usage: tools/seed_eval.sh <PROP> <k> [check-prop ...]
+# usage: [SEED_SRC=<dir with patch.diff, demo*.go, meta.json>] tools/seed_eval.sh <PROP> <k> [check-prop ...]
 # Confirms a sub-agent mutant in a scratch worktree (suite passes, demo passes clean / fails patched), then applies it to
 # /repo, runs the owning check(s) and restores /repo. Writes /verif/seeded/<PROP>-m<k>/{patch.diff,demo*,meta.json}.
 set -u
 export GOFLAGS=-mod=mod GOPROXY=off GOSUMDB=off GOTOOLCHAIN=local
 P=$1; K=$2; shift 2; CHECKS="${*:-$P}"
-SRC=/tmp/$P-work/mutant-$K
+SRC=${SEED_SRC:-/tmp/$P-work/mutant-$K}
 [ -f $SRC/patch.diff ] || { echo "no such mutant $SRC"; exit 2; }
 WT=/tmp/wt-eval-$P-$K
 git -C /repo worktree remove --force $WT 2>/dev/null
 git -C /repo worktree add -q $WT HEAD || exit 2
 DEMO=$(ls $SRC | grep -E '^demo.*\.go$' | head -1)
-DIR=$(python3 -c "import json;print(json.load(open('$SRC/meta.json')).get('demo_package_dir','').replace('/tmp/wt-$P/','').strip('/'))")
+DIR=$(python3 -c "import json,re;print(re.sub(r'^/tmp/wt[0-9]*-$P/','',json.load(open('$SRC/meta.json')).get('demo_package_dir','')).strip('/'))")
 [ -n "$DIR" ] || DIR=$(grep -m1 -oE 'plugins/[a-z/]+|server' $SRC/$DEMO | head -1)
 res() { echo "$1" >> $WT/.evalres; }
 cd $WT
